@@ -464,3 +464,174 @@ impl Group for Stack {
         if o.contains("panics=0") { "clean".into() } else { "panic".into() }
     }
 }
+
+/// `utils::parse::query` and the `Query` accessors a handler uses on the client's query string
+pub struct QueryStr;
+impl QueryStr {
+    fn names() -> [&'static str; 4] { ["a", "b", "", "é"] }
+}
+impl Group for QueryStr {
+    fn name(&self) -> &'static str {
+        "c02.query"
+    }
+    fn rule(&self) -> &'static str {
+        "utils::parse::query on EVERY string of up to 5 (quick) / 6 (thorough) tokens over {a, b, =, &, %, 41, é, +} and random longer ones, then every accessor a handler can call on the result (get, get_first, get_last, get_all forwards and backwards, Display) for four names, under catch_unwind; oracle: no panic; for well-formed queries (every pair `name=value` with a non-empty name and one `=`) get_first / get_last / get are the first / last / only value of the name as a plain split gives them; non-trivial = the query has a pair"
+    }
+    fn generate(&self, ctx: &Ctx, rng: &mut Rng) -> Vec<String> {
+        let toks = ["a", "b", "=", "&", "%", "41", "\u{e9}", "+"];
+        let depth = if ctx.mode == Mode::Quick { 5 } else { 6 };
+        let mut v = vec!["c02.query -".to_owned()];
+        let mut frontier: Vec<String> = vec![String::new()];
+        for _ in 0..depth {
+            let mut next = Vec::new();
+            for s in &frontier {
+                for t in toks {
+                    let mut x = s.clone();
+                    x.push_str(t);
+                    next.push(x);
+                }
+            }
+            for s in &next {
+                v.push(format!("c02.query {}", hex(s.as_bytes())));
+            }
+            frontier = next;
+        }
+        for _ in 0..(if ctx.mode == Mode::Quick { 2000 } else { 50_000 }) {
+            // mostly well-formed: 1-6 pairs over few names, so that names repeat
+            let k = rng.range(1, 6);
+            let mut s = String::new();
+            for i in 0..k {
+                if i > 0 { s.push('&'); }
+                s.push_str(*rng.pick(&["a", "b", "a", "ab", "\u{e9}", "%61"]));
+                if !rng.chance(1, 12) { s.push('='); }
+                s.push_str(*rng.pick(&["1", "2", "", "x%20y", "\u{e9}", "%", "=", "3"]));
+            }
+            v.push(format!("c02.query {}", hex(s.as_bytes())));
+        }
+        v
+    }
+    fn compare_with_model(&self, _line: &str) -> bool {
+        false
+    }
+    fn run_impl(&self, _ctx: &Ctx, line: &str) -> String {
+        let raw = unhex(line.split(' ').nth(1).unwrap()).unwrap();
+        let s = String::from_utf8(raw).unwrap();
+        let q = kvarn_utils::parse::query(&s);
+        let mut out = Vec::new();
+        for name in Self::names() {
+            let get = q.get(name).map(|p| p.value().to_owned());
+            let first = q.get_first(name).map(|p| p.value().to_owned());
+            let last = q.get_last(name).map(|p| p.value().to_owned());
+            let all: Vec<String> = q.get_all(name).map(|p| p.value().to_owned()).collect();
+            let back: Vec<String> = q.get_all(name).rev().map(|p| p.value().to_owned()).collect();
+            let show = |o: Option<String>| o.map(|v| hex(v.as_bytes())).unwrap_or("none".into());
+            out.push(format!("{}:{}:{}:{}:[{}]:[{}]", hex(name.as_bytes()), show(get), show(first), show(last),
+                all.iter().map(|v| hex(v.as_bytes())).collect::<Vec<_>>().join(";"), back.iter().map(|v| hex(v.as_bytes())).collect::<Vec<_>>().join(";")));
+        }
+        let _ = q.to_string();
+        out.join(" ")
+    }
+    fn oracle(&self, _ctx: &Ctx, line: &str, out: &str) -> Option<(String, String)> {
+        if out == "panic" {
+            return Some((format!("panic:{line}"), "utils::parse::query or a Query accessor panicked".into()));
+        }
+        let raw = unhex(line.split(' ').nth(1)?)?;
+        let s = String::from_utf8(raw).ok()?;
+        // well-formed: every pair is `name=value`, one `=`, non-empty name
+        let pairs: Vec<(&str, &str)> = if s.is_empty() { vec![] } else { s.split('&').map(|p| p.split_once('=').unwrap_or((p, "\u{0}"))).collect() };
+        if pairs.iter().any(|(k, v)| k.is_empty() || *v == "\u{0}" || v.contains('=')) {
+            return None;
+        }
+        let dec = |x: &str| kvarn_utils::percent_decode(x).into_owned();
+        for (field, name) in out.split(' ').zip(Self::names()) {
+            let f: Vec<&str> = field.split(':').collect();
+            let vals: Vec<String> = pairs.iter().filter(|(k, _)| dec(k) == name).map(|(_, v)| dec(v)).collect();
+            let show = |o: Option<&String>| o.map(|v| hex(v.as_bytes())).unwrap_or("none".into());
+            let want_get = if vals.len() == 1 { show(vals.first()) } else { "none".into() };
+            let want_all = format!("[{}]", vals.iter().map(|v| hex(v.as_bytes())).collect::<Vec<_>>().join(";"));
+            let want_back = format!("[{}]", vals.iter().rev().map(|v| hex(v.as_bytes())).collect::<Vec<_>>().join(";"));
+            if f.get(1) != Some(&want_get.as_str()) || f.get(2) != Some(&show(vals.first()).as_str()) || f.get(3) != Some(&show(vals.last()).as_str()) || f.get(4) != Some(&want_all.as_str()) || f.get(5) != Some(&want_back.as_str()) {
+                return Some((format!("query:{line}"), format!("`{s}`: the values of `{name}` are {vals:?}; the accessors gave get/first/last/all/backwards = {}", f[1..].join(" / "))));
+            }
+        }
+        None
+    }
+    fn nontrivial(&self, line: &str, _o: &str) -> bool {
+        unhex(line.split(' ').nth(1).unwrap_or("")).map_or(false, |r| r.contains(&b'='))
+    }
+    fn classify(&self, _l: &str, o: &str) -> String {
+        if o == "panic" { "panic".into() } else { "ok".into() }
+    }
+}
+
+/// `QueryPairIter` driven from both ends on real queries, against the model's iterator
+pub struct QueryIter;
+impl Group for QueryIter {
+    fn name(&self) -> &'static str {
+        "c02.qiter"
+    }
+    fn rule(&self) -> &'static str {
+        "a real Query built from 0-3 pairs named `0`, 0-4 named `a`, 0-3 named `b` (given in shuffled order; the values of `a` numbered in the order given), then `get_all(\"a\")` driven by EVERY sequence of up to 6 (quick) / 8 (thorough) next()/next_back() calls; the values that came out at the front and at the back compared with the model's `QueryIter.drive` on the range the name occupies; oracle: front values ascend from 0, back values descend from the last, none twice; non-trivial = both ends used"
+    }
+    fn generate(&self, ctx: &Ctx, rng: &mut Rng) -> Vec<String> {
+        let depth = if ctx.mode == Mode::Quick { 6 } else { 8 };
+        let mut seqs: Vec<String> = vec![String::new()];
+        let mut all: Vec<String> = vec![String::new()];
+        for _ in 0..depth {
+            let mut next = Vec::new();
+            for s in &seqs {
+                for d in ["f", "b"] {
+                    next.push(if s.is_empty() { d.to_owned() } else { format!("{s},{d}") });
+                }
+            }
+            all.extend(next.iter().cloned());
+            seqs = next;
+        }
+        let mut v = Vec::new();
+        for s in &all {
+            for na in [0usize, 1, 2, 4] {
+                v.push(format!("c02.qiter {} {na} {} [{s}]", rng.below(4), rng.below(4)));
+            }
+        }
+        v
+    }
+    fn run_impl(&self, _ctx: &Ctx, line: &str) -> String {
+        let p: Vec<&str> = line.split(' ').collect();
+        let (n0, na, nb): (usize, usize, usize) = (p[1].parse().unwrap(), p[2].parse().unwrap(), p[3].parse().unwrap());
+        // the pairs in an order that is not the sorted one: b's, then interleaved 0's and a's
+        let mut pairs: Vec<String> = (0..nb).map(|i| format!("b=w{i}")).collect();
+        for i in 0..n0.max(na) {
+            if i < na { pairs.push(format!("a={i}")); }
+            if i < n0 { pairs.push(format!("0=z{i}")); }
+        }
+        let s = pairs.join("&");
+        let q = kvarn_utils::parse::query(&s);
+        let mut it = q.get_all("a");
+        let (mut front, mut back) = (Vec::new(), Vec::new());
+        for d in parse_list(p[4]).unwrap() {
+            if d == "f" {
+                if let Some(x) = it.next() { front.push(x.value().to_owned()); }
+            } else if let Some(x) = it.next_back() {
+                back.push(x.value().to_owned());
+            }
+        }
+        format!("front={} back={}", list(front), list(back))
+    }
+    fn oracle(&self, _ctx: &Ctx, line: &str, out: &str) -> Option<(String, String)> {
+        if out == "panic" {
+            return Some((format!("panic:{line}"), "QueryPairIter panicked".into()));
+        }
+        let na: usize = line.split(' ').nth(2)?.parse().ok()?;
+        let (f, b) = out.split_once(" back=")?;
+        let front: Vec<usize> = parse_list(f.strip_prefix("front=")?)?.iter().filter_map(|x| x.parse().ok()).collect();
+        let back: Vec<usize> = parse_list(b)?.iter().filter_map(|x| x.parse().ok()).collect();
+        let ok = front.iter().enumerate().all(|(i, v)| *v == i) && back.iter().enumerate().all(|(i, v)| *v + i + 1 == na) && front.len() + back.len() <= na;
+        if !ok {
+            return Some((format!("qiter:{line}"), format!("the {na} values of `a` are 0..{na} in order; taken from the front {front:?}, from the back {back:?}")));
+        }
+        None
+    }
+    fn nontrivial(&self, line: &str, _o: &str) -> bool {
+        line.contains('f') && line.contains('b') && !line.contains(" 0 [")
+    }
+}
